@@ -5,6 +5,7 @@ package main
 
 import (
 	"context"
+	"errors"
 	"fmt"
 	"strconv"
 	"strings"
@@ -182,6 +183,9 @@ func hwRunProvider(p core.Provider, log *zap.Logger) (stop func() error) {
 		cancel()
 		select {
 		case err := <-done:
+			if errors.Is(err, context.Canceled) {
+				return nil // Run may notice our cancel before it notices the end of its ammo
+			}
 			return err
 		case <-time.After(60 * time.Second):
 			return fmt.Errorf("provider.Run did not return within 60s after cancel")
